@@ -70,6 +70,8 @@ type VCase struct {
 	Spec         string   // Gallina definition of the specification-side case (optional)
 	SpecVerdict  string   // "ok" | "na" | "bad <hex> <err>" | ""
 	ParseVerdict string   // "ok", "bad" or ""
+	PMVerdict    string   // parser model on the bytes of the source: "PMOk", "PMBadTree", "PMBadErr", "PMFuel" or ""
+	NoParserModel bool    // leave the parser model out for this case
 	Verdict      []string // filled by RunCases: "ok" | "skip" | "fuel" | "bad <hex> <err> <writes>"
 }
 
@@ -105,6 +107,10 @@ var reSVerdict = regexp.MustCompile(`SpecOk|SpecNA|SpecBad\s+"([0-9a-f]*)"\s+(\d
 // RunCases evaluates the cases in the Gallina model: cases.v shards, one coqc each, in parallel.
 func RunCases(o *Options, cases []*VCase) error {
 	const shard = 120
+	gennow, err := prepareGenNow(o)
+	if err != nil {
+		return err
+	}
 	type job struct{ lo, hi int }
 	var jobs []job
 	for lo := 0; lo < len(cases); lo += shard {
@@ -124,11 +130,15 @@ func RunCases(o *Options, cases []*VCase) error {
 			sem <- struct{}{}
 			defer func() { <-sem }()
 			var sb strings.Builder
-			sb.WriteString("From Coq Require Import String.\nFrom DT Require Import Model.Bytes Model.Value Model.Tree Model.Interp Model.VCase Spec.Ast Spec.RefEval Spec.SCase.\nLocal Open Scope string_scope.\n")
-			var names, snames, pnames []string
+			sb.WriteString("From Coq Require Import String.\nFrom DT Require Import Model.Bytes Model.Value Model.Tree Model.Interp Model.VCase Spec.Ast Spec.RefEval Spec.SCase Model.Parser Model.PCase.\nFrom GenNow Require Import RegexTable ParseEnv.\nLocal Open Scope string_scope.\n")
+			var names, snames, pnames, pmnames []string
+			pmcount := map[int]int{}
 			for _, c := range cases[j.lo:j.hi] {
 				sb.WriteString(c.gallina())
 				names = append(names, fmt.Sprintf("check_case c%d", c.ID))
+				pt := c.parserModelTerms()
+				pmcount[c.ID] = len(pt)
+				pmnames = append(pmnames, pt...)
 				if c.Spec != "" {
 					sb.WriteString(c.Spec)
 					snames = append(snames, fmt.Sprintf("spec_check s%d", c.ID))
@@ -138,6 +148,7 @@ func RunCases(o *Options, cases []*VCase) error {
 			fmt.Fprintf(&sb, "Definition verdicts := Eval vm_compute in %s.\nPrint verdicts.\n", gList(names))
 			fmt.Fprintf(&sb, "Definition sverdicts := Eval vm_compute in %s.\nPrint sverdicts.\n", gList(snames))
 			fmt.Fprintf(&sb, "Definition pverdicts := Eval vm_compute in %s.\nPrint pverdicts.\n", gList(pnames))
+			fmt.Fprintf(&sb, "Definition pmverdicts := Eval vm_compute in %s.\nPrint pmverdicts.\n", gList(pmnames))
 			dir := fmt.Sprintf("%s/shard%d", o.WorkDir, ji)
 			_ = os.MkdirAll(dir, 0o755)
 			file := dir + "/cases.v"
@@ -145,7 +156,7 @@ func RunCases(o *Options, cases []*VCase) error {
 				errs[ji] = err
 				return
 			}
-			cmd := coqcCmd("1200", "-Q", o.CoqDir, "DT", "-Q", dir, "Cases", file)
+			cmd := coqcCmd("1200", "-Q", o.CoqDir, "DT", "-Q", gennow, "GenNow", "-Q", dir, "Cases", file)
 			out, err := cmd.CombinedOutput()
 			if err != nil {
 				errs[ji] = fmt.Errorf("coqc on %s: %v\n%s", file, err, tail(string(out), 1500))
@@ -173,6 +184,17 @@ func RunCases(o *Options, cases []*VCase) error {
 				default:
 					c.SpecVerdict = fmt.Sprintf("bad -%s %s", m[1], m[2])
 				}
+			}
+			pmm := rePMVerdict.FindAllString(outs, -1)
+			pmi := 0
+			for _, c := range cases[j.lo:j.hi] {
+				n := pmcount[c.ID]
+				if pmi+n > len(pmm) {
+					errs[ji] = fmt.Errorf("coqc on %s: fewer parser-model verdicts than checks", file)
+					return
+				}
+				c.PMVerdict = pmSummary(pmm[pmi : pmi+n])
+				pmi += n
 			}
 			pm := rePVerdict.FindAllString(outs, -1)
 			pi := 0
